@@ -120,6 +120,28 @@ def build_coq(clean=False):
             f, line, txt = m.group(1), int(m.group(2)), m.group(3)
             if "Error" in txt and f not in failed:
                 failed[f] = {"line": line, "error": txt.strip()[:1500], "theorem": enclosing_theorem(os.path.join(COQ, f), line)}
+        # the parallel build interleaves the output of several coqc processes: the lines between a `File ...` header
+        # and its `Error` can be many.  make's own one-line verdict per target is what decides; the message is
+        # looked up afterwards (best effort), and the stale .vo of a target that failed is removed so that nothing
+        # later mistakes it for a result of this run
+        for m in re.finditer(r"\*\*\* \[[^\]\n]*?(theories/[^\]\s:]+)\.vo\] Error", out):
+            f = m.group(1) + ".v"
+            if f not in failed:
+                line, txt = 0, "coqc failed (see work/coq_build.log)"
+                for h in re.finditer(r'File "\./' + re.escape(f) + r'", line (\d+), characters [^\n]*\n', out):
+                    line = int(h.group(1))
+                    tail = out[h.end():h.end() + 6000]
+                    e = re.search(r"(?m)^Error:?[^\n]*(?:\n(?!COQC|make|File |Closed under)[^\n]*){0,8}", tail)
+                    if e:
+                        txt = e.group(0).strip()[:1500]
+                failed[f] = {"line": line, "error": txt, "theorem": enclosing_theorem(os.path.join(COQ, f), line) if line else None}
+        if rc != 0 and not failed:
+            failed["(build)"] = {"line": 0, "error": "make ended with status %d and no target could be named:\n%s" % (rc, out[-1500:]), "theorem": None}
+        for f in failed:
+            try:
+                os.remove(os.path.join(COQ, f + "o"))
+            except OSError:
+                pass
         ok = [f for f in files if os.path.exists(os.path.join(COQ, f + "o"))]
         missing = [f for f in files if f not in ok]
         return {"ok": ok, "missing": missing, "failed": failed, "wall_s": time.time() - t0, "rc": rc}
@@ -231,7 +253,11 @@ def build_harness(vh_bin="vh", build_flags=()):
         return rc, out
 
 
-def run_vh(args, timeout=3000, vh_bin="vh", extra_env=None):
+def run_vh(args, timeout=None, vh_bin="vh", extra_env=None):
+    """One harness run.  A harness that does not come back (the code under test wedged it past its own watchdogs)
+    is a failed run after 15 minutes in the quick tier, 2 hours in the thorough one."""
+    if timeout is None:
+        timeout = 7200 if "thorough" in [str(a) for a in args] else 900
     t0 = time.time()
     e = goenv()
     e.update(extra_env or {})
@@ -319,6 +345,8 @@ class Result:
 def proof_status(build, prop, needs):
     """Which of the files a property's theorems need did not build. needs: list of theories/... paths."""
     broken = []
+    if "(build)" in build["failed"]:
+        broken.append({"file": "(build)", **build["failed"]["(build)"]})
     for f in needs:
         if f in build["failed"]:
             broken.append({"file": f, **build["failed"][f]})
